@@ -17,7 +17,7 @@ def run(tier, seed, replay=None):
     n = 800 if quick else 8000
     batches = []
     for k in range(2 if quick else 4):
-        batches.append(dict(name="random-fail-%d" % k, world=seed * 10 + k,
+        batches.append(dict(name="random-fail-%d" % k, world=seed * 10 + k, sched=True,
                             args=["-n", n, "-seed", seed * 10 + k, "-runs", 4, "-depth", 3, "-fail", 2 + k % 2]))
     batches.append(dict(name="tlc-enumerated-with-failures", world=seed, gen=(tier, False),
                         args=["-seed", seed + 5, "-runs", 4, "-fail", 2]))
